@@ -2760,6 +2760,11 @@ def _transition_to_absent(
 ) -> None:
     """Remove any type of entry."""
     if current_stat is None:
+        # nothing in the working tree, but the path may still be in the index
+        try:
+            del index[path]
+        except KeyError:
+            pass
         return
 
     if stat.S_ISDIR(current_stat.st_mode):
@@ -3302,15 +3307,21 @@ def _check_entry_for_changes(
         # filter operation. This addresses performance issues with LFS repositories
         # where filter operations can be very slow.
         if _stat_matches_entry(st, entry, trust_ctime):
+            if honor_filemode and cleanup_mode(st.st_mode) != cleanup_mode(
+                entry.mode
+            ):
+                # chmod does not touch mtime or size
+                return tree_path
             return None
 
         blob = blob_from_path_and_stat(full_path, st)
 
         if filter_blob_callback is not None:
             blob = filter_blob_callback(blob, tree_path)
-    except FileNotFoundError:
-        # The file was removed, so we assume that counts as
-        # different from whatever file used to exist.
+    except (FileNotFoundError, NotADirectoryError):
+        # The file was removed (or a leading directory was replaced by a
+        # file), so we assume that counts as different from whatever file
+        # used to exist.
         return tree_path
     else:
         if blob.id != entry.sha:
